@@ -139,6 +139,29 @@ func genC10(tier, out string, sum *Summary) {
 				}
 			}
 		}
+		// both operands fail, each in its own way: operands are taken from left to right, with or without the implied
+		// parentheses, under every operator
+		for _, o1 := range binSpellings {
+			for _, pr := range [][4]string{{"abs('x')", "$undef", "CInvalidType", "CUndefinedVariable"}, {"$undef", "(`1` / `0`)", "CUndefinedVariable", "CNotANumber"}, {"(`1` / `0`)", "pad_left('', `-1`)", "CNotANumber", "CInvalidValue"}} {
+				for _, form := range []string{"<L> <OP> <R>", "(<L>) <OP> (<R>)", "a <OP> <L> <OP> <R>", "[<L> <OP> <R>]"} {
+					for k := 0; k < 2; k++ {
+						l, r, want := pr[0], pr[1], pr[2]
+						if k == 1 {
+							l, r, want = pr[1], pr[0], pr[3]
+						}
+						e := strings.NewReplacer("<L>", l, "<R>", r, "<OP>", o1.text).Replace(form)
+						if strings.HasPrefix(form, "a ") && (o1.ascii == "||" || o1.ascii == "&&") {
+							continue // the first operand may decide
+						}
+						o := search(e, docs[0])
+						sum.count("two-failing-operands")
+						if !(o.Kind == "err" && len(o.Cats) == 1 && o.Cats[0] == want) {
+							sum.direct("operand-order", e, docs[0], "both operands fail; the left one is evaluated first and must decide ("+want+"), got "+describe(o))
+						}
+					}
+				}
+			}
+		}
 		for _, f := range faults {
 			for _, ctx := range []string{"!%s", "- %s", "[%s]", "{k: %s}", "a[?%s]", "abs(%s)", "a | %s", "%s | a", "let $v = %s in a", "let $v = a in %s", "sort_by(a, &%s)", "a[*].[%s]", "a && !%s"} {
 				flat := fmt.Sprintf(ctx, f)
